@@ -355,6 +355,12 @@ func expectedFailures(x *Exec, r *StepRec) map[string]int {
 			if !ok || c.SuperMode {
 				continue
 			}
+			if ri := x.tr.Reqs[rid]; ri != nil && ri.Answered {
+				// the provider's response was accepted earlier (ledger of successful respond messages): whatever the module
+				// still keeps about the request, it did not time out unanswered
+				x.stats.inc("probe_answered_request_still_marked_at_expiry")
+				continue
+			}
 			f[bkey(c.ServiceName, q.Provider)]++
 		}
 	case r.Kind == "msg" && r.Msg.T == "respond":
